@@ -145,9 +145,9 @@ def check_case(case, counters, sets):
                         add('C04:signal-before-computation-end@map_async',
                             'element %s signalled complete at t=%s (in %s) but map_async %s finished computing on it at t=%s'
                             % (d.get('id'), triggered[id(d)][1], triggered[id(d)][2], e[3], e[1]), id(d))
-    for i, exc in ar.emit_exc.items():
-        for d in ar.mds.get(i, []):
-            failed.setdefault(id(d), 'emit raised %r' % (exc,))
+    # an emit can also raise because the backpressure future it was handed belongs to an *earlier* batch that
+    # failed (timed_window returns the emission in progress); only failures of data derived from the element
+    # itself (FAILED / FN_FAILED above, attributed by metadata identity) count as "its processing raised"
     for did, where in failed.items():
         counters['failed_elements_checked'] = counters.get('failed_elements_checked', 0) + 1
         if did in triggered:
